@@ -219,6 +219,62 @@ def generate(ctx):
             ctx.trials.append(cid)
             ctx.add('reparse_json_path %s' % gen.hexarg(t), diff=not has_float(want), meta=('reparse',))
         ctx.add('print_parse_json_path %s' % want, diff=not has_float(want), meta=('pp', want))
+    # long and deep expressions: chains of 64 .. 400 terms of && / || (left-nested by the parser, 250 and more levels deep as an
+    # AST), parentheses nested to the right, exists() / filters nested.  The printer model and the class of the round-trip
+    # theorem are structural (no fuel): the printed text must be the crate's, byte for byte, at every depth
+    def term(i):
+        c = r.random()
+        if c < 0.7:
+            return ('b', r.choice(['eq', 'ne', 'lt', 'le', 'gt', 'ge']), ('p', [('C',), ('D', b'k%d' % (i % 7))]), ('v', ('u', i % 11)))
+        if c < 0.85:
+            return ('b', 'eq', ('v', ('s', b's%d' % (i % 5))), ('p', [('R',), ('D', b'r')]))
+        return ('e', [('C',), ('D', b'x%d' % (i % 3))])
+
+    def lchain(ops, ts):
+        e = ts[0]
+        for i, t in enumerate(ts[1:]):
+            e = ('b', ops[i % len(ops)], e, t)
+        return e
+
+    def rchain(ops, ts):
+        e = ts[-1]
+        for i, t in enumerate(reversed(ts[:-1])):
+            e = ('b', ops[i % len(ops)], t, e)
+        return e
+
+    deep = []
+    for n in (64, 100, 199, 200, 201, 210, 250, 400):
+        ts = [term(i) for i in range(n)]
+        deep += [lchain(['and'], ts), lchain(['or'], ts), rchain(['and'], ts), rchain(['or'], ts),
+                 lchain([r.choice(['and', 'or']) for _ in range(n)], ts), rchain([r.choice(['and', 'or']) for _ in range(n)], ts)]
+    for d in (10, 70, 250):
+        e = term(0)
+        for i in range(d):
+            e = ('e', [('C',), ('D', b'n'), ('F', e)])
+        deep.append(e)
+        e = term(1)
+        for i in range(d):
+            e = ('b', 'or', term(i), ('e', [('C',), ('F', ('b', 'and', e, term(i + 1)))]))
+        deep.append(e)
+    for e in deep:
+        ast = [('R',), ('D', b'a'), ('F', e)]
+        want = common.path_text(ast)
+        ctx.ws_kinds = False
+        t = render(ctx, ast)
+        ctx.ws_kinds = True
+        texts_deep = t
+        cid = ctx.add('parse_json_path %s' % gen.hexarg(t), meta=('parse', want, t)).id
+        ctx.trials.append(cid)
+        ctx.add('reparse_json_path %s' % gen.hexarg(t), meta=('reparse',))
+        ctx.add('print_parse_json_path %s' % want, meta=('pp', want))
+        ctx.add('print_json_path %s' % want, kind='deep-print')
+        ctx.count('deep', 'expressions')
+    # parentheses / exists nested as deep as the crate's own recursion allows in a test build (beyond ~4000 levels the
+    # crate overflows its stack)
+    for n in (100, 1000, 2000):
+        for t in ('$?(' + '(' * n + '@ == 1' + ')' * n + ')', '$?(' + 'exists(@?(' * n + '@ == 1' + '))' * n + ')',
+                  '$?(' + '(' * n + '@ == 1' + ')' * (n - 1) + ')', '$' + '?(exists(@' * n + ')' * (2 * n)):
+            ctx.add('parse_json_path %s' % gen.hexarg(t.encode()), kind='deep-nesting')
     # documented examples from the README / test data
     for t in [b'$', b'$.*', b'$[*]', b'$.store.book[*].author', b'$.store.book[0, 1 to last-1]', b'$.phones[last]', b'$[last - 2 to last]',
               b'$.a ? (@.b == 1 && @.c > "x" || exists(@.d))', b'$?(@.price < 10)', b'$.a > 1', b'$ ? (@ > 1)', b'a.b', b'a:b', b'$["a"]["b"]',
